@@ -525,6 +525,8 @@ fn call_kind(c: &Call) -> String {
 pub struct MkdirProgram {
     pub cfg: Cfg,
     pub init: Init,
+    /// calls made sequentially before the threads start (e.g. an earlier removal of the prefix)
+    pub pre: Vec<Op>,
     pub paths: Vec<&'static str>,
 }
 
@@ -532,13 +534,16 @@ impl Program for MkdirProgram {
     type Sys = LinSys;
     type Rec = bool;
     fn describe(&self) -> String {
-        format!("{} create_dir_all x {:?}", self.cfg.label(), self.paths)
+        format!("{} init {:?} after {:?}: create_dir_all x {:?}", self.cfg.label(), self.init, self.pre.iter().map(|o| o.show()).collect::<Vec<_>>(), self.paths)
     }
     fn threads(&self) -> usize {
         self.paths.len()
     }
     fn setup(&self) -> LinSys {
         let built = build(&self.cfg, Order::Asc, &self.init);
+        for op in &self.pre {
+            let _ = crate::ops::apply(&built.root, op);
+        }
         let fs = built.mem_fs.clone().unwrap_or_else(|| SharedFs(std::sync::Arc::new(vfs::MemoryFS::new())));
         LinSys { built, fs }
     }
@@ -564,32 +569,50 @@ pub fn run_c17(ctx: &Ctx) -> i32 {
     let pool: Vec<&'static str> = vec!["a", "a/b", "a/b/c", "a/b/c/d", "a/x", "a/b/x", "e"];
     let ov = Cfg::Ov(vec![Cfg::Mem, Cfg::Mem]);
     let lower_prefix: Init = vec![(1, vec![("/a/b".to_string(), Node::Dir)])];
-    // (configuration, initial contents, thread counts, preemption bound)
-    let mut plans: Vec<(Cfg, Init, Vec<usize>, Option<usize>)> = vec![
-        (Cfg::Mem, vec![], vec![2, 3], None),
-        (Cfg::alt(Cfg::Mem, "/Z"), vec![], vec![2], None),
-        (ov.clone(), vec![], vec![2], None),
-        (ov.clone(), lower_prefix.clone(), vec![2], None),
-        (Cfg::Phys, vec![], vec![2, 3], None),
+    // the shared prefix was there (lower layer, or plain) and was removed before the threads start:
+    // on an overlay its deletion markers are still in place when the race begins
+    let removed_all = vec![Op::RemoveDirAll("/a".into())];
+    let removed_leaf = vec![Op::RemoveDir("/a/b".into())];
+    let plain_prefix: Init = vec![(0, vec![("/a/b".to_string(), Node::Dir)])];
+    // (configuration, initial contents, earlier calls, thread counts, preemption bound)
+    let mut plans: Vec<(Cfg, Init, Vec<Op>, Vec<usize>, Option<usize>)> = vec![
+        (Cfg::Mem, vec![], vec![], vec![2, 3], None),
+        (Cfg::alt(Cfg::Mem, "/Z"), vec![], vec![], vec![2], None),
+        (ov.clone(), vec![], vec![], vec![2], None),
+        (ov.clone(), lower_prefix.clone(), vec![], vec![2], None),
+        (ov.clone(), lower_prefix.clone(), removed_all.clone(), vec![2], None),
+        (ov.clone(), lower_prefix.clone(), removed_leaf.clone(), vec![2], None),
+        (Cfg::Mem, plain_prefix.clone(), removed_all.clone(), vec![2], None),
+        (Cfg::Phys, vec![], vec![], vec![2, 3], None),
     ];
     if thorough {
-        plans.push((Cfg::Mem, vec![], vec![4], Some(3)));
-        plans.push((Cfg::alt(Cfg::Mem, "/Z"), vec![], vec![3], None));
-        plans.push((ov.clone(), vec![], vec![3], Some(2)));
-        plans.push((ov.clone(), lower_prefix.clone(), vec![3], Some(2)));
-        plans.push((Cfg::alt(ov.clone(), "/Z"), vec![], vec![2], None));
-        plans.push((Cfg::Phys, vec![], vec![4], Some(3)));
-        plans.push((Cfg::alt(Cfg::Phys, "/Z"), vec![], vec![2, 3], None));
+        plans.push((Cfg::Mem, vec![], vec![], vec![4], Some(3)));
+        plans.push((Cfg::alt(Cfg::Mem, "/Z"), vec![], vec![], vec![3], None));
+        plans.push((ov.clone(), vec![], vec![], vec![3], Some(2)));
+        plans.push((ov.clone(), lower_prefix.clone(), vec![], vec![3], Some(2)));
+        plans.push((ov.clone(), lower_prefix.clone(), removed_all.clone(), vec![3], Some(2)));
+        plans.push((Cfg::Ov(vec![Cfg::Mem, Cfg::Mem, Cfg::Mem]), vec![(2, vec![("/a/b".to_string(), Node::Dir)])], removed_all.clone(), vec![2], None));
+        plans.push((Cfg::alt(ov.clone(), "/Z"), vec![], vec![], vec![2], None));
+        plans.push((Cfg::Phys, vec![], vec![], vec![4], Some(3)));
+        plans.push((Cfg::Phys, plain_prefix.clone(), removed_all.clone(), vec![2], None));
+        plans.push((Cfg::alt(Cfg::Phys, "/Z"), vec![], vec![], vec![2, 3], None));
     }
     let mut programs: Vec<(String, MkdirProgram, Option<usize>)> = vec![];
-    for (cfg, init, ks, bound) in &plans {
+    for (cfg, init, pre, ks, bound) in &plans {
         for k in ks {
             // quick tier: overlays (long call chains per create_dir) use the 4 paths that share prefixes of every length
             let small = !thorough && cfg.has_overlay();
             let pool: Vec<&'static str> = if small { vec!["a", "a/b", "a/b/c", "a/x"] } else { pool.clone() };
             for ms in multisets(pool.len(), *k) {
-                let label = format!("{}{} x {} threads{}", cfg.label(), if init.is_empty() { "" } else { " (shared prefix only in the lower layer)" }, k, bound.map(|b| format!(" (preemption bound {})", b)).unwrap_or_default());
-                programs.push((label, MkdirProgram { cfg: cfg.clone(), init: init.clone(), paths: ms.iter().map(|i| pool[*i]).collect() }, *bound));
+                let label = format!(
+                    "{}{}{} x {} threads{}",
+                    cfg.label(),
+                    if init.is_empty() { "" } else if cfg.has_overlay() { " (shared prefix only in the lower layer)" } else { " (shared prefix present)" },
+                    if pre.is_empty() { String::new() } else { format!(" after {}", pre.iter().map(|o| o.show()).collect::<Vec<_>>().join(", ")) },
+                    k,
+                    bound.map(|b| format!(" (preemption bound {})", b)).unwrap_or_default()
+                );
+                programs.push((label, MkdirProgram { cfg: cfg.clone(), init: init.clone(), pre: pre.clone(), paths: ms.iter().map(|i| pool[*i]).collect() }, *bound));
             }
         }
     }
@@ -610,7 +633,7 @@ pub fn run_c17(ctx: &Ctx) -> i32 {
                     property: "C17".into(),
                     signature: format!("{}|{}", p.cfg.label(), tail),
                     summary: format!("{} threads create_dir_all {:?} on {}, schedule {:?}: {}", p.paths.len(), p.paths, p.cfg.label(), choices, what),
-                    replay: json!({"engine": "sched", "configuration": p.cfg.label(), "paths": p.paths, "schedule": choices, "labels": ex.trace.iter().map(|s| s.label).collect::<Vec<_>>()}),
+                    replay: json!({"engine": "sched", "configuration": p.cfg.label(), "initial_contents": format!("{:?}", p.init), "earlier_calls": p.pre.iter().map(|o| o.show()).collect::<Vec<_>>(), "paths": p.paths, "schedule": choices, "labels": ex.trace.iter().map(|s| s.label).collect::<Vec<_>>()}),
                 };
                 for (t, pm) in ex.panics.iter().enumerate() {
                     if let Some(m) = pm {
